@@ -25,6 +25,16 @@ CHECKS = {
          "Generated multi-rhs problems are compared block by block with single-rhs problems for each column at construction, after caller updates and at every alpha of an LM run; a column-permuted problem must show the permuted blocks.",
          "Trusted: nothing beyond the public constructors; comparisons bitwise, else condition-aware tolerance relative to |W D_k c| for Jacobian blocks.",
          "§4 C07"),
+ "C10": ("exploration",
+         "stateful property-based testing (proptest, generated operation histories) with fresh-problem differential oracle and heap-poisoning differential",
+         "Generated histories of updates and queries (repeats, failing, extreme parameters) are executed twice under a harness-side global allocator that pre-fills every fresh allocation (also in the rayon workers) with 0xFF and 0x5A; after every successful update the reported state must be bitwise equal to a freshly built problem at that alpha, repeated queries must be bitwise equal, and the two poison runs must agree bitwise.",
+         "Trusted: the allocator wrapper; heap contents are sampled by two patterns only; MSan/Miri deliberately not used (other technique family).",
+         "§4 C10"),
+ "C11": ("exploration",
+         "property-based differential testing (proptest): parallel vs sequential flavour, bitwise, over pool sizes and schedule jitter",
+         "The same generated inputs go through the sequential and the parallel constructors; the parallel problem runs in dedicated rayon pools of three generated sizes (1..16) with CPU-burning jitter in the derivative evaluation; every update of an LM run, whole fits and into_sequential() are compared bitwise.",
+         "Schedules are sampled, not enumerated: rayon cannot be put under a schedule-owning runtime with what is installed.",
+         "§4 C11"),
  "C01": ("exploration",
          "property-based testing (proptest, 16 seeded shards) with independent linear-algebra oracle + metamorphic linearity relation",
          "Generated search over models x alpha x data x weights x thresholds x flavours, visiting construction, caller updates and every LM trial step; each reported coefficient matrix is checked against optimality predicates (truncated normal equations, minimum norm) and an independently written f64 Jacobi-SVD pseudo-inverse. Establishes absence of violations only on the explored cases; shrunk counterexamples become replay files.",
